@@ -28,6 +28,7 @@ import email.utils
 import json
 import mimetypes
 import os
+import zlib
 import re
 import shutil
 import tempfile
@@ -460,6 +461,10 @@ def run_wsgi(rec, resp=None):
         resp = build(rec, wsgi_responses, k if kind == "p" else None)
     environ = {"REQUEST_METHOD": "GET", "wsgi.url_scheme": "http", "SERVER_NAME": "testserver", "SERVER_PORT": "80",
                "PATH_INFO": "/", "SCRIPT_NAME": "", "QUERY_STRING": ""}
+    # the protocol version the server announces (it is the server's business; a response must be legal under each)
+    proto = (None, "HTTP/1.1", "HTTP/1.0", "HTTP/2")[rec.get("_variant", 0) % 4]
+    if proto:
+        environ["SERVER_PROTOCOL"] = proto
     if rec["kind"] == "file":
         environ["REQUEST_METHOD"] = rec["method"]
         if rec["range"] is not None:
@@ -641,6 +646,7 @@ def impl(line):
     rec = parse_line(line)
     if rec["kind"] == "file" and rec["chunk"] == 0:
         return "unsupported chunk_size 0"
+    rec["_variant"] = zlib.crc32(line.encode("utf-8", "surrogatepass"))    # presentation of the request, per line
     try:
         out = with_alarm(20, run_wsgi if rec["iface"] == "wsgi" else run_asgi, rec)
     except OpTimeout:
